@@ -27,8 +27,10 @@ VARIABLE probe
 pvars == <<vars, probe>>
 
 WriterOps == {"SetPeriod", "Correct", "Propagate", "SetCorrOpts", "Save", "Load", "LoadInplace"}
-ReadSeq == << <<"ReadMonodromy", <<>>>>, <<"ComputeStability", <<>>>>, <<"ReadStability", <<>>>>,
-              <<"ReadTrajectory", <<>>>>, <<"ReadPeriod", <<>>>>, <<"ReadInit", <<>>>>,
+\* attribute reads come FIRST (a stale _stability_info / _trajectory must be seen before a computing read refreshes it:
+\* compute_stability() on a miss re-assigns the attribute), then the memoised computations, then the attribute again
+ReadSeq == << <<"ReadStability", <<>>>>, <<"ReadTrajectory", <<>>>>, <<"ReadMonodromy", <<>>>>,
+              <<"ComputeStability", <<>>>>, <<"ReadStability", <<>>>>, <<"ReadPeriod", <<>>>>, <<"ReadInit", <<>>>>,
               <<"ReadCorrOpts", <<>>>>, <<"ReadEnergy", <<>>>> >>
 
 LastRec == hist'[Len(hist')]
